@@ -859,4 +859,105 @@ theorem pinv_run (entry : Nat → Bytes) (tr : List (Nat × Ev)) : ∀ (y y' : S
       · subst hji; rw [upd_same]; exact pinv_step (entry j) (y.st j) s' e (hinv j) hacc
       · rw [upd_other _ _ _ _ hji]; exact hinv j
 
+/-! ### a failing read / write / fsync is final: the delivery can only end with 111
+
+The acceptor takes ANY chunking of the entry into `write`s, so this covers every buffered writer (substdio's 1024-byte
+`outbuf` in particular) at every entry length, including the lengths at which a put finds the buffer exactly full. -/
+
+/-- the error events of the copy loop that are not retried: `read`/`write` failing with anything but EINTR, failing `fsync` -/
+def hardError : Ev → Bool
+  | .readErr false => true
+  | .writeErr false => true
+  | .fsync false => true
+  | _ => false
+
+/-- control points of the error path `writeerrs:` … `_exit(111)` -/
+def Failed : PC → Bool
+  | .rollback => true
+  | .closeErr => true
+  | .dying c => c == 111
+  | .done c => c == 111
+  | _ => false
+
+theorem hard_fails (entry : Bytes) (s s' : St) (e : Ev) (h : accept entry s e = some s') (he : hardError e = true) :
+    Failed s'.pc = true := by
+  have hf : Failed (failFrom s).pc = true := by rw [failFrom_pc]; split <;> rfl
+  cases e with
+  | readErr intr =>
+    cases intr with
+    | true => simp [hardError] at he
+    | false => simp only [accept] at h; split at h
+               · simp at h; subst h; exact hf
+               · cases h
+  | writeErr intr =>
+    cases intr with
+    | true => simp [hardError] at he
+    | false => simp only [accept] at h; split at h
+               · simp at h; subst h; exact hf
+               · cases h
+  | fsync ok =>
+    cases ok with
+    | true => simp [hardError] at he
+    | false => simp only [accept] at h; split at h
+               · simp at h; subst h; exact hf
+               · cases h
+  | _ => simp [hardError] at he
+
+theorem failed_step (entry : Bytes) (s s' : St) (e : Ev) (h : accept entry s e = some s') (hf : Failed s.pc = true) :
+    Failed s'.pc = true := by
+  cases hpc : s.pc <;> simp [Failed, hpc] at hf <;>
+    (cases e <;> simp [accept, hpc] at h <;> (try (subst h; simp [Failed])) <;>
+      (try (obtain ⟨h1, h2⟩ := h; subst h2; simp [Failed, h1, hf])))
+
+theorem failed_run (entry : Nat → Bytes) (i : Nat) (tr : List (Nat × Ev)) : ∀ (y y' : Sys), Failed (y.st i).pc = true →
+    sysRun entry y tr = some y' → Failed (y'.st i).pc = true := by
+  induction tr with
+  | nil => intro y y' hf h; simp [sysRun] at h; subst h; exact hf
+  | cons x xs ih =>
+    intro y y' hf h
+    obtain ⟨j, e⟩ := x
+    simp only [sysRun] at h
+    cases hs : sysStep entry y j e with
+    | none => simp [hs] at h
+    | some y1 =>
+      simp only [hs] at h
+      obtain ⟨s', hacc, hst, _⟩ := sysStep_shape entry y y1 j e hs
+      apply ih y1 y' _ h
+      rw [hst]
+      by_cases hji : i = j
+      · subst hji; rw [upd_same]; exact failed_step (entry i) (y.st i) s' e hacc hf
+      · rw [upd_other _ _ _ _ hji]; exact hf
+
+theorem sysRun_append (entry : Nat → Bytes) (tr1 tr2 : List (Nat × Ev)) : ∀ (y y' : Sys),
+    sysRun entry y (tr1 ++ tr2) = some y' → ∃ y1, sysRun entry y tr1 = some y1 ∧ sysRun entry y1 tr2 = some y' := by
+  induction tr1 with
+  | nil => intro y y' h; exact ⟨y, rfl, h⟩
+  | cons x xs ih =>
+    intro y y' h
+    obtain ⟨j, e⟩ := x
+    simp only [List.cons_append, sysRun] at h ⊢
+    cases hs : sysStep entry y j e with
+    | none => simp [hs] at h
+    | some y1 => simp only [hs] at h ⊢; exact ih y1 y' h
+
+/-- in any interleaving: once process `i` has seen a hard error, it is on the error path for good -/
+theorem error_run (entry : Nat → Bytes) (tr1 tr2 : List (Nat × Ev)) (i : Nat) (e : Ev) (y0 y : Sys)
+    (he : hardError e = true) (h : sysRun entry y0 (tr1 ++ (i, e) :: tr2) = some y) : Failed (y.st i).pc = true := by
+  obtain ⟨y1, _, h2⟩ := sysRun_append entry tr1 _ y0 y h
+  simp only [sysRun] at h2
+  cases hs : sysStep entry y1 i e with
+  | none => simp [hs] at h2
+  | some y2 =>
+    simp only [hs] at h2
+    obtain ⟨s', hacc, hst, _⟩ := sysStep_shape entry y1 y2 i e hs
+    apply failed_run entry i tr2 y2 y _ h2
+    rw [hst, upd_same]
+    exact hard_fails (entry i) (y1.st i) s' e hacc he
+
+theorem failed_not_committed (pc : PC) (h : Failed pc = true) : Committed pc = false := by
+  cases pc <;> simp [Failed] at h <;> (try subst h) <;> simp [Committed]
+
+theorem failed_done (pc : PC) (h : Failed pc = true) (c : Nat) (hc : pc = .done c) : c = 111 := by
+  subst hc; simpa [Failed] using h
+
 end Nq.Lemmas.LD.Mb
